@@ -70,7 +70,7 @@ Headers(n) ==
   /\ IF n > 0 THEN ann' = ann + n /\ UNCHANGED sync
      ELSE /\ UNCHANGED ann
           \* in sync when no block request is outstanding - a block that is being processed is not counted (cf. F1)
-          /\ sync' = IF sync # "no" THEN sync
+          /\ sync' = IF sync = "yes" THEN sync
                      ELSE IF (ann = done /\ gate = "none") \/ (ann = done + 1 /\ gate = "held") THEN "yes" ELSE "pending"
   /\ phases' = <<>>
   /\ act' = A("Headers", n, "") /\ UNCHANGED <<run, epoch, hs, done, ntx, gate, pend, emitted, stopReq, stopRet, saved, locTop>>
